@@ -154,4 +154,18 @@ REG = {
          "generated families. The algorithm-level structure (x3 inside, x4 on the root's side, probes) is checked by a second configuration of the trace "
          "specification and reported as model drift only. Function values that overflow are not generated.",
     technique="TLA+ state machine of Ridder's method on an ordered grid (TLC exhaustive over root configurations and non-deterministic iterates; refutes the pinned stopping rule) + trace validation of recorded executions in rank space"),
+ "C12": dict(
+    engine="spec/GaussLegendre.tla, MC_GL.tla (3 cfgs), Trace_GL.tla, Rat.tla, Big.tla; harness/c12.cpp",
+    design_ref="DESIGN.md §4.12",
+    text="GaussLegendre.tla models the two order-dependent mechanisms of the rule construction: the slot-filling loop (i and n-1-i for i<(n+1) div 2; TLC: every "
+         "slot of every n<=512 is written, mirrored slots together, nothing outside) and the affine map of a symmetric half-rule to [a,b] (TLC on rational stand-in "
+         "rules of 1..5 nodes over every integer interval in -3..3, both orientations: ordered in the direction of integration, symmetric about the midpoint, weights "
+         "carry the orientation and sum to b-a, reversed limits give the mirror image with negated weights), and exports exact moments (b-a)^(k+1)/(k+1). The "
+         "recorder computes the real rule for EVERY order n=1..512 on [-1,1], on random intervals (offset/width up to 1e6, reversed) and for sampled orders up to "
+         "4000; Trace_GL requires the orders to arrive without gaps and accepts a rule only if nodes are strictly monotone and strictly inside, symmetric, weights of "
+         "the right sign, symmetric, summing to b-a, exact on every Legendre polynomial of the interval up to degree 2n-1 and on monomials to degree 60, NOT exact "
+         "one degree beyond, the three overloads agree, the reversed rule is the negated mirror image; length mismatches exit with a diagnostic.",
+    note="Residual allowances (512+4 sqrt n) eps L / (256+4n) eps L + 8n eps M are calibrated to the implementation's Newton tolerance 1e-14 (weights use the derivative "
+         "at the last-but-one iterate): about 2-4x the largest residual observed. Nodes are characterised through exactness, not compared with tabulated Legendre roots.",
+    technique="TLA+ model of the slot-filling loop and of the affine map of symmetric rules (TLC exhaustive over orders / rational stand-in rules), exact moments, and trace validation of rules recorded for every order 1..512 and sampled orders to 4000"),
 }
